@@ -109,6 +109,32 @@ pub fn generate(seed: u64, thorough: bool, sink: &mut Sink) -> Vec<String> {
     extra.push(format!("x := [{}]", (1..=k).map(|i| if i % 2 == 0 { "true" } else { "false" }).collect::<Vec<_>>().join("; ")));
   }
   push("strings-names-arity", extra, sink);
+  // compound constants: sets, tables and tuples whose elements are of every scalar kind, with parts that differ
+  // (real and imaginary part, numerator and denominator) so that a part written twice or swapped is visible
+  let mut comp: Vec<String> = vec![];
+  let elems: Vec<(&str, Vec<String>)> = vec![
+    ("c64", (0..6).map(|_| { let re = rng.range(-9, 9); let mut im = rng.range(-9, 9); if im == re || im == 0 { im = re + 3; } format!("{}{}{}i", re, if im < 0 { "-" } else { "+" }, im.abs()) }).collect()),
+    ("r64", (0..6).map(|_| { let n = rng.range(1, 9); let mut d = rng.range(2, 9); if d == n { d += 1; } format!("{}/{}", n, d) }).collect()),
+    ("f64", (0..6).map(|_| format!("{}.5", rng.range(0, 40))).collect()),
+    ("string", vec!["\"a\"".into(), "\"bc\"".into(), "\"\"".into(), "\"dé\"".into(), "\"e f\"".into(), "\"g\"".into()]),
+    ("bool", vec!["true".into(), "false".into(), "true".into(), "false".into(), "true".into(), "false".into()]),
+  ];
+  for (kind, vals) in elems.iter() {
+    for n in 1..=3usize {
+      comp.push(format!("x := {{{}}}", vals[..n].join(", ")));
+      comp.push(format!("x := {{{}}}; y := x", vals[..n].join(", ")));
+      comp.push(format!("x := ({})", vals[..n.max(2)].join(", ")));
+      if *kind != "string" || true { comp.push(format!("x := |a<{}> b<f64>|{}", kind, (0..n).map(|i| format!(" {} {} |", vals[i], i + 1)).collect::<String>())); }
+      comp.push(format!("x := {{{}}}; y := {{{}}}; z := x ∪ y", vals[..n].join(", "), vals[n..(n + 2).min(6)].join(", ")));
+    }
+    comp.push(format!("x := ({}, 7)", vals[0]));
+    comp.push(format!("x := {{({}, 2), ({}, 5)}}", vals[0], vals[1]));
+  }
+  for k in ["u8", "i8", "u16", "i16", "u32", "i32", "u64", "i64", "f32"] {
+    comp.push(format!("x := |a<{}> b<bool>| 1 true | 2 false | 3 true |", k));
+    comp.push(format!("x := |a<{}>| 7 | 8 |", k));
+  }
+  push("compound", comp, sink);
   out
 }
 
